@@ -1,13 +1,13 @@
 #!/bin/sh
-# usage: round2.sh PROP [extra props to run, comma list]  — collect a round-2 sub-agent's output and run the quick check against each change
-P=$1; PROPS=${2:-$1}
+# usage: [R=3] round2.sh PROP [props to run, comma list] — collect a round-R sub-agent's output and run the quick check against each change
+P=$1; PROPS=${2:-$1}; R=${R:-2}
 cd /verif
-if [ -d /tmp/wt2_$P/_seeded ]; then rm -rf seeded/_incoming/${P}_r2; cp -r /tmp/wt2_$P/_seeded seeded/_incoming/${P}_r2; git -C /repo worktree remove --force /tmp/wt2_$P; fi
-sed -i -E '/^\s*assert cyecca\.__file__\.startswith\("\/tmp\/wt/d' seeded/_incoming/${P}_r2/demo_*.py 2>/dev/null
+if [ -d /tmp/wt${R}_$P/_seeded ]; then rm -rf seeded/_incoming/${P}_r$R; mkdir -p seeded/_incoming/${P}_r$R; for f in A.patch B.patch C.patch demo_A.py demo_B.py demo_C.py needs.json notes.md; do [ -f /tmp/wt${R}_$P/_seeded/$f ] && cp /tmp/wt${R}_$P/_seeded/$f seeded/_incoming/${P}_r$R/; done; for f in /tmp/wt${R}_$P/_seeded/_*.py; do [ -f "$f" ] && cp $f seeded/_incoming/${P}_r$R/; done; git -C /repo worktree remove --force /tmp/wt${R}_$P; fi
+sed -i -E '/^\s*assert cyecca\.__file__\.startswith\("\/tmp\/wt/d' seeded/_incoming/${P}_r$R/demo_*.py 2>/dev/null
 export MPLBACKEND=Agg
 for x in A B C; do
-  [ -f seeded/_incoming/${P}_r2/$x.patch ] || continue
-  /venv/bin/python tools/seedcheck.py seeded/_incoming/${P}_r2 $P --patch $x.patch --demo demo_$x.py --no-suite --props $PROPS 2>&1 | /venv/bin/python -c "
+  [ -f seeded/_incoming/${P}_r$R/$x.patch ] || continue
+  /venv/bin/python tools/seedcheck.py seeded/_incoming/${P}_r$R $P --patch $x.patch --demo demo_$x.py --no-suite --props $PROPS 2>&1 | /venv/bin/python -c "
 import sys,json
-r=json.load(sys.stdin); print('$P-r2$x', 'apply', r['apply'], 'demo clean/patched', r.get('demo_clean',{}).get('rc'), r.get('demo_patched',{}).get('rc'), {k:(v['rc'],[l[:240] for l in v['violations'] if 'cell=' in l][:2]) for k,v in r.get('checks',{}).items()})"
+r=json.load(sys.stdin); print('$P-r$R$x', 'apply', r['apply'], 'demo clean/patched', r.get('demo_clean',{}).get('rc'), r.get('demo_patched',{}).get('rc'), {k:(v['rc'],[l[:240] for l in v['violations'] if 'cell=' in l][:2]) for k,v in r.get('checks',{}).items()})"
 done
